@@ -1364,9 +1364,11 @@ def rule_signed_key(ctx):
 
 
 def run(ctx):
-    from ..rules import sC04, sC03
+    from ..rules import sC04, sC03, s4C04
+    arith = sC04.rule_arith(ctx)
     return [rule_signed_key(ctx), sC03.rule_guard(ctx, floor=2, direction='C04'), rule_ops(ctx), rule_fold(ctx), rule_pure(ctx), rule_enable(ctx), rule_bit(ctx), rule_p1(ctx), rule_name(ctx),
-            rule_dispatch(ctx), rule_w1(ctx), rule_i5(ctx), _dscope(ctx), sC04.rule_barrier(ctx, _fold_analyse), sC04.rule_arith(ctx)]
+            rule_dispatch(ctx), rule_w1(ctx), rule_i5(ctx), _dscope(ctx), sC04.rule_barrier(ctx, _fold_analyse), arith,
+            s4C04.rule_sticky(ctx, bit_values=getattr(arith, 'bit_values', None))]
 
 
 MUTATIONS = [
